@@ -5,6 +5,9 @@ package harness
 import (
 	"encoding/hex"
 	"fmt"
+	"github.com/cosmos/cosmos-sdk/x/params"
+	paramstypes "github.com/cosmos/cosmos-sdk/x/params/types"
+	paramproposal "github.com/cosmos/cosmos-sdk/x/params/types/proposal"
 	"math/big"
 	"reflect"
 	"sort"
@@ -84,6 +87,10 @@ type c17Op struct {
 	Onb       *c17Onb `json:"onboarding,omitempty"`
 	Erc       *c17Erc `json:"erc20,omitempty"`
 	Arg       string  `json:"arg,omitempty"` // register_coin: base denom; register_erc20: contract; toggle: token; lending/treasury: prop id
+	// Legacy (parameter updates with the governance authority only): the update is delivered the way a passed legacy
+	// ParameterChangeProposal is - the params module's proposal handler writes every field of the set straight into the
+	// module's subspace (per-field validators), bypassing the module's message server and keeper.SetParams
+	Legacy bool `json:"legacy,omitempty"`
 }
 type c17Case struct {
 	Ops []c17Op `json:"ops"`
@@ -209,6 +216,41 @@ var c17PrivKinds = map[string]string{"register_coin": "RegisterCoin", "register_
 
 // c17Build returns the message as it arrives over the wire (encode + decode through the app codec),
 // then with the requested numeric field made absent.  ok=false: not deliverable.
+// c17LegacyParamChange: the parameter set carried by a MsgUpdateParams, delivered as a legacy ParameterChangeProposal
+func c17LegacyParamChange(a *app.Canto, ctx sdk.Context, msg sdk.Msg) error {
+	var subspace string
+	var ps paramstypes.ParamSet
+	switch v := msg.(type) {
+	case *coinswaptypes.MsgUpdateParams:
+		subspace, ps = coinswaptypes.ModuleName, &v.Params
+	case *inflationtypes.MsgUpdateParams:
+		subspace, ps = inflationtypes.ModuleName, &v.Params
+	case *csrtypes.MsgUpdateParams:
+		subspace, ps = csrtypes.ModuleName, &v.Params
+	case *onboardingtypes.MsgUpdateParams:
+		subspace, ps = onboardingtypes.ModuleName, &v.Params
+	case *erc20types.MsgUpdateParams:
+		subspace, ps = erc20types.ModuleName, &v.Params
+	default:
+		return fmt.Errorf("not a parameter update")
+	}
+	var changes []paramproposal.ParamChange
+	for _, pair := range ps.ParamSetPairs() {
+		val := reflect.Indirect(reflect.ValueOf(pair.Value)).Interface()
+		bz, err := a.LegacyAmino().MarshalJSON(val)
+		if err != nil {
+			return err
+		}
+		if cn, isCoin := val.(sdk.Coin); isCoin && !cn.Amount.IsNil() {
+			// amino JSON omits an empty denomination, and Subspace.Update decodes the JSON over the value stored
+			// before: the old denomination would survive.  Spell the submitted value out in full.
+			bz = []byte(fmt.Sprintf(`{"denom":%q,"amount":%q}`, cn.Denom, cn.Amount.String()))
+		}
+		changes = append(changes, paramproposal.NewParamChange(subspace, string(pair.Key), string(bz)))
+	}
+	return params.NewParamChangeProposalHandler(a.ParamsKeeper)(ctx, paramproposal.NewParameterChangeProposal("verif", "legacy parameter change", changes))
+}
+
 func c17Build(a *app.Canto, o c17Op) (msg sdk.Msg, ok bool) {
 	defer func() {
 		if r := recover(); r != nil {
@@ -548,8 +590,12 @@ func (e *Env) c17Boundary(w *c17World) []c17Op {
 		name string
 		f    func(p *c17Inf)
 	}{
-		{"default-like", func(p *c17Inf) { p.A, p.R, p.C, p.BT, p.MV = ten(25), ten(17), "0", new(big.Int).Mul(big.NewInt(8), new(big.Int).Exp(big.NewInt(10), big.NewInt(17), nil)).String(), "0" }},
-		{"variance-3", func(p *c17Inf) { p.A, p.C, p.BT, p.MV = ten(40), ten(30), ten(18), new(big.Int).Mul(big.NewInt(3), one).String() }},
+		{"default-like", func(p *c17Inf) {
+			p.A, p.R, p.C, p.BT, p.MV = ten(25), ten(17), "0", new(big.Int).Mul(big.NewInt(8), new(big.Int).Exp(big.NewInt(10), big.NewInt(17), nil)).String(), "0"
+		}},
+		{"variance-3", func(p *c17Inf) {
+			p.A, p.C, p.BT, p.MV = ten(40), ten(30), ten(18), new(big.Int).Mul(big.NewInt(3), one).String()
+		}},
 		{"tiny-target", func(p *c17Inf) { p.A, p.C, p.BT, p.MV = ten(20), "1", "1", ten(18) }},
 		{"zero-a-c", func(p *c17Inf) { p.A, p.C, p.BT, p.MV = "0", "0", ten(17), ten(18) }},
 	}
@@ -825,6 +871,20 @@ func runC17(e *Env) {
 		}
 	}
 
+	if e.Replay == nil {
+		// a third of the parameter updates that carry the governance authority travel the legacy route
+		for ci := range cases {
+			for oi := range cases[ci].Ops {
+				o := &cases[ci].Ops[oi]
+				switch o.Kind {
+				case "coinswap", "inflation", "csr", "onboarding", "erc20":
+					if o.Authority == w.gov && o.NilField == "" && e.Chance(0.33) {
+						o.Legacy = true
+					}
+				}
+			}
+		}
+	}
 	for c, kase := range cases {
 		ctx, _ := baseCtx.CacheContext()
 		in := &c17Intern{names: map[string]string{}}
@@ -865,6 +925,9 @@ func runC17(e *Env) {
 				}
 			}
 			err := Try(ctx, func(cctx sdk.Context) error {
+				if o.Legacy {
+					return c17LegacyParamChange(a, cctx, msg)
+				}
 				h := a.MsgServiceRouter().Handler(msg)
 				if h == nil {
 					return fmt.Errorf("no handler")
@@ -882,6 +945,9 @@ func runC17(e *Env) {
 			who := "gov"
 			if o.Authority != w.gov {
 				who = "other"
+			}
+			if o.Legacy {
+				who = "gov-legacy-route"
 			}
 			e.Stats.Count(fmt.Sprintf("%s:%s:%s", o.Kind, who, cls))
 			if o.Label != "" && o.Label != "authority-matrix" && o.Label != "perturbed" {
